@@ -955,6 +955,7 @@ struct Eval {
     n_types: usize,
     n_live: usize,
     n_classes: usize,
+    max_class: usize,
 }
 
 fn default_closure(r: &Resolve, id: TypeId) -> bool {
@@ -1023,6 +1024,7 @@ fn eval_world(wit: &str) -> Eval {
         classes.entry(sigs[id].as_str()).or_default().push(*id);
     }
     ev.n_classes = classes.len();
+    ev.max_class = classes.values().map(|m| m.iter().filter(|x| !matches!(r.types[**x].kind, TypeDefKind::Type(_))).count()).max().unwrap_or(0);
     let is_alias = |id: TypeId| matches!(r.types[id].kind, TypeDefKind::Type(_));
     for members in classes.values() {
         if members.iter().filter(|m| !is_alias(**m)).count() >= 2 {
@@ -1259,11 +1261,135 @@ fn eval_guarded(wit: &str) -> Eval {
 // Exploration
 // ------------------------------------------------------------------------------------------
 
+// ---- "order" bands: one look-alike definition per interface, k interfaces, the world's
+// import/export statements permuted against the declaration (= TypeId) order ----
+
+#[derive(Clone, Copy, PartialEq, Eq, Debug)]
+enum ODef {
+    Rec0,    // record t { a: u32, b: u32 }
+    Rec1,    // record t { b: u32, a: u32 }
+    Enum0,   // enum t { a, b }
+    ListU32, // type t = list<u32>;
+    UsePrev, // use i<j-1>.{t};   (j >= 1)
+}
+
+#[derive(Clone, Copy, PartialEq, Eq, Debug)]
+enum OUse {
+    None,
+    Param,  // f: func(x: t);
+    Result, // f: func() -> t;
+    Err,    // f: func() -> result<u32, t>;
+}
+
+#[derive(Clone, Debug)]
+struct OrderBand {
+    k: usize,
+    defs: Vec<ODef>,
+    uses: Vec<OUse>,
+}
+
+impl OrderBand {
+    fn describe(&self) -> Value {
+        json!({
+            "interfaces": self.k,
+            "definition_per_interface": format!("{:?} (each interface declares one type `t`; UsePrev only from the second interface on)", self.defs),
+            "function_per_interface": format!("{:?} on the interface's own `t`", self.uses),
+            "world": "every assignment import/export per interface x every order of the import statements x every order of the export statements (all permutations)",
+        })
+    }
+    fn choices(&self, j: usize) -> Vec<(ODef, OUse)> {
+        let mut v = Vec::new();
+        for &d in &self.defs {
+            if d == ODef::UsePrev && j == 0 {
+                continue;
+            }
+            for &u in &self.uses {
+                v.push((d, u));
+            }
+        }
+        v
+    }
+}
+
+fn order_bands(thorough: bool) -> Vec<OrderBand> {
+    use ODef::*;
+    if !thorough {
+        vec![
+            OrderBand { k: 3, defs: vec![Rec0, Rec1, Enum0, ListU32, UsePrev], uses: vec![OUse::None, OUse::Param, OUse::Result, OUse::Err] },
+            OrderBand { k: 4, defs: vec![Rec0, Rec1], uses: vec![OUse::None, OUse::Param, OUse::Result] },
+        ]
+    } else {
+        vec![
+            OrderBand { k: 3, defs: vec![Rec0, Rec1, Enum0, ListU32, UsePrev], uses: vec![OUse::None, OUse::Param, OUse::Result, OUse::Err] },
+            OrderBand { k: 4, defs: vec![Rec0, Rec1, Enum0, UsePrev], uses: vec![OUse::None, OUse::Param, OUse::Result] },
+        ]
+    }
+}
+
+fn permutations(items: &[usize]) -> Vec<Vec<usize>> {
+    if items.len() <= 1 {
+        return vec![items.to_vec()];
+    }
+    let mut out = Vec::new();
+    for i in 0..items.len() {
+        let mut rest = items.to_vec();
+        let x = rest.remove(i);
+        for mut p in permutations(&rest) {
+            p.insert(0, x);
+            out.push(p);
+        }
+    }
+    out
+}
+
+fn render_order(ifaces: &[(ODef, OUse)], imports: &[usize], exports: &[usize]) -> String {
+    let mut s = String::from("package t:c28;\n");
+    for (j, (d, u)) in ifaces.iter().enumerate() {
+        s.push_str(&format!("interface i{j} {{\n"));
+        s.push_str(&match d {
+            ODef::Rec0 => "  record t { a: u32, b: u32 }\n".to_string(),
+            ODef::Rec1 => "  record t { b: u32, a: u32 }\n".to_string(),
+            ODef::Enum0 => "  enum t { a, b }\n".to_string(),
+            ODef::ListU32 => "  type t = list<u32>;\n".to_string(),
+            ODef::UsePrev => format!("  use i{}.{{t}};\n", j - 1),
+        });
+        s.push_str(match u {
+            OUse::None => "",
+            OUse::Param => "  f: func(x: t);\n",
+            OUse::Result => "  f: func() -> t;\n",
+            OUse::Err => "  f: func() -> result<u32, t>;\n",
+        });
+        s.push_str("}\n");
+    }
+    s.push_str("world w {\n");
+    for j in imports {
+        s.push_str(&format!("  import i{j};\n"));
+    }
+    for j in exports {
+        s.push_str(&format!("  export i{j};\n"));
+    }
+    s.push_str("}\n");
+    s
+}
+
+fn order_code(ifaces: &[(ODef, OUse)], imports: &[usize], exports: &[usize]) -> String {
+    let d: Vec<String> = ifaces.iter().map(|(d, u)| format!("{d:?}/{u:?}")).collect();
+    format!("order|{}|import{:?} export{:?}", d.join(";"), imports, exports)
+}
+
+#[derive(Clone, Debug)]
+struct OrderChunk {
+    band: usize,
+    first: (ODef, OUse),
+    export_mask: u32,
+}
+
 #[derive(Clone, Debug)]
 struct Chunk {
     band: usize,
     layout: Layout,
     prefix: Vec<Def>,
+    order: Option<OrderChunk>,
 }
 
 #[derive(Default)]
@@ -1273,6 +1399,9 @@ struct Acc {
     rej_sample: Option<String>,
     genuine: u64,
     near: u64,
+    class3: u64,
+    class3_permuted: u64,
+    invalid_skipped: u64,
     err_literal: u64,
     err_named: u64,
     err_alias: u64,
@@ -1284,41 +1413,57 @@ struct Acc {
     samples: Vec<Value>,
 }
 
+/// Evaluate one world and fold the result into the accumulator. `permuted` = the world's
+/// import/export order differs from the declaration order (order bands only).
+fn account(acc: &mut Acc, wit: String, code: impl Fn() -> String, permuted: bool) {
+    let ev = eval_guarded(&wit);
+    if let Some(r) = &ev.rejected {
+        // mixing `use` chains with import/export assignments can give worlds that are not
+        // valid WIT (an interface reachable both through an import and an export): not in the space
+        if r.contains("transitively depends on an interface in incompatible ways") {
+            acc.invalid_skipped += 1;
+            return;
+        }
+    }
+    acc.evals += 1;
+    if let Some(r) = ev.rejected {
+        acc.rejected += 1;
+        if acc.rej_sample.is_none() {
+            acc.rej_sample = Some(format!("{r} :: {wit}"));
+        }
+        return;
+    }
+    acc.genuine += ev.genuine_merge as u64;
+    acc.near += (ev.near_equal_pairs > 0) as u64;
+    acc.class3 += (ev.max_class >= 3) as u64;
+    acc.class3_permuted += (ev.max_class >= 3 && permuted) as u64;
+    acc.err_literal += ev.err_literal as u64;
+    acc.err_named += ev.err_named as u64;
+    acc.err_alias += ev.err_alias as u64;
+    acc.max_types = acc.max_types.max(ev.n_types);
+    acc.max_live = acc.max_live.max(ev.n_live);
+    acc.outcomes.insert(ev.outcome);
+    if ev.genuine_merge {
+        if acc.outcomes_nt.insert(ev.outcome) && acc.samples.len() < 2 {
+            acc.samples.push(json!({"world": code(), "wit": one_line(&wit), "types": ev.n_types, "live": ev.n_live, "oracle_classes": ev.n_classes}));
+        }
+    }
+    for (key, what) in ev.violations {
+        let better = match acc.viol.get(&key) {
+            None => true,
+            Some((_, w, _)) => (wit.len(), &wit) < (w.len(), w),
+        };
+        if better {
+            acc.viol.insert(key, (what, wit.clone(), code()));
+        }
+    }
+}
+
 fn explore(b: &Band, layout: Layout, defs: &mut Vec<Def>, acc: &mut Acc) {
     if defs.len() == b.n {
         for uses in use_sets(b, defs) {
             let wit = render(defs, layout, &uses);
-            let ev = eval_guarded(&wit);
-            acc.evals += 1;
-            if let Some(r) = ev.rejected {
-                acc.rejected += 1;
-                if acc.rej_sample.is_none() {
-                    acc.rej_sample = Some(format!("{r} :: {wit}"));
-                }
-                continue;
-            }
-            acc.genuine += ev.genuine_merge as u64;
-            acc.near += (ev.near_equal_pairs > 0) as u64;
-            acc.err_literal += ev.err_literal as u64;
-            acc.err_named += ev.err_named as u64;
-            acc.err_alias += ev.err_alias as u64;
-            acc.max_types = acc.max_types.max(ev.n_types);
-            acc.max_live = acc.max_live.max(ev.n_live);
-            acc.outcomes.insert(ev.outcome);
-            if ev.genuine_merge {
-                if acc.outcomes_nt.insert(ev.outcome) && acc.samples.len() < 2 {
-                    acc.samples.push(json!({"world": world_code(defs, layout, &uses), "wit": one_line(&wit), "types": ev.n_types, "live": ev.n_live, "oracle_classes": ev.n_classes}));
-                }
-            }
-            for (key, what) in ev.violations {
-                let better = match acc.viol.get(&key) {
-                    None => true,
-                    Some((_, w, _)) => (wit.len(), &wit) < (w.len(), w),
-                };
-                if better {
-                    acc.viol.insert(key, (what, wit.clone(), world_code(defs, layout, &uses)));
-                }
-            }
+            account(acc, wit, || world_code(defs, layout, &uses), false);
         }
         return;
     }
@@ -1330,11 +1475,37 @@ fn explore(b: &Band, layout: Layout, defs: &mut Vec<Def>, acc: &mut Acc) {
     }
 }
 
-fn run_chunk(bands: &[Band], c: &Chunk) -> Value {
+fn explore_order(b: &OrderBand, oc: &OrderChunk, ifaces: &mut Vec<(ODef, OUse)>, acc: &mut Acc) {
+    if ifaces.len() == b.k {
+        let imports: Vec<usize> = (0..b.k).filter(|j| oc.export_mask & (1 << j) == 0).collect();
+        let exports: Vec<usize> = (0..b.k).filter(|j| oc.export_mask & (1 << j) != 0).collect();
+        for pi in permutations(&imports) {
+            for pe in permutations(&exports) {
+                let wit = render_order(ifaces, &pi, &pe);
+                let visit: Vec<usize> = pi.iter().chain(pe.iter()).copied().collect();
+                let permuted = visit.windows(2).any(|w| w[0] > w[1]);
+                account(acc, wit, || order_code(ifaces, &pi, &pe), permuted);
+            }
+        }
+        return;
+    }
+    for c in b.choices(ifaces.len()) {
+        ifaces.push(c);
+        explore_order(b, oc, ifaces, acc);
+        ifaces.pop();
+    }
+}
+
+fn run_chunk(bands: &[Band], obands: &[OrderBand], c: &Chunk) -> Value {
     vcommon::install_quiet_panic_hook();
     let mut acc = Acc::default();
-    let mut defs = c.prefix.clone();
-    explore(&bands[c.band], c.layout, &mut defs, &mut acc);
+    if let Some(oc) = &c.order {
+        let mut ifaces = vec![oc.first];
+        explore_order(&obands[oc.band], oc, &mut ifaces, &mut acc);
+    } else {
+        let mut defs = c.prefix.clone();
+        explore(&bands[c.band], c.layout, &mut defs, &mut acc);
+    }
     let viol: Vec<Value> = acc
         .viol
         .iter()
@@ -1342,7 +1513,7 @@ fn run_chunk(bands: &[Band], c: &Chunk) -> Value {
         .collect();
     json!({
         "evals": acc.evals, "rejected": acc.rejected, "rej_sample": acc.rej_sample,
-        "genuine": acc.genuine, "near": acc.near,
+        "genuine": acc.genuine, "near": acc.near, "class3": acc.class3, "class3_permuted": acc.class3_permuted, "invalid_skipped": acc.invalid_skipped,
         "err_literal": acc.err_literal, "err_named": acc.err_named, "err_alias": acc.err_alias,
         "max_types": acc.max_types, "max_live": acc.max_live,
         "outcomes": acc.outcomes.iter().collect::<Vec<_>>(),
@@ -1395,20 +1566,35 @@ fn main() {
             for d0 in slot_alphabet(b, layout, 0, &[]) {
                 if b.n >= 3 {
                     for d1 in slot_alphabet(b, layout, 1, &[d0]) {
-                        chunks.push(Chunk { band: bi, layout, prefix: vec![d0, d1] });
+                        chunks.push(Chunk { band: bi, layout, prefix: vec![d0, d1], order: None });
                     }
                 } else {
-                    chunks.push(Chunk { band: bi, layout, prefix: vec![d0] });
+                    chunks.push(Chunk { band: bi, layout, prefix: vec![d0], order: None });
                 }
+            }
+        }
+    }
+    // development aid: `--order-only` explores just the order bands (evidence says so)
+    let order_only = run.extra_args.iter().any(|a| a == "--order-only");
+    if order_only {
+        chunks.clear();
+    }
+    let obands = order_bands(run.thorough());
+    for (bi, b) in obands.iter().enumerate() {
+        for first in b.choices(0) {
+            for export_mask in 0..(1u32 << b.k) {
+                chunks.push(Chunk { band: 0, layout: Layout::Same, prefix: vec![], order: Some(OrderChunk { band: bi, first, export_mask }) });
             }
         }
     }
     let rot = (run.seed as usize) % chunks.len().max(1);
     chunks.rotate_left(rot);
-    let results = vcommon::par_map(chunks.len(), vcommon::ncpu(), |i| run_chunk(&bands, &chunks[i]));
+    let results = vcommon::par_map(chunks.len(), vcommon::ncpu(), |i| run_chunk(&bands, &obands, &chunks[i]));
 
     let mut evals = 0u64;
     let mut per_band = vec![0u64; bands.len()];
+    let mut per_oband = vec![0u64; obands.len()];
+    let (mut class3, mut class3_permuted, mut invalid_skipped) = (0u64, 0u64, 0u64);
     let mut rejected = 0u64;
     let mut rej_sample = Value::Null;
     let (mut genuine, mut near, mut el, mut en, mut ea) = (0u64, 0u64, 0u64, 0u64, 0u64);
@@ -1420,7 +1606,13 @@ fn main() {
     for (i, r) in results.iter().enumerate() {
         let e = r["evals"].as_u64().unwrap();
         evals += e;
-        per_band[chunks[i].band] += e;
+        match &chunks[i].order {
+            Some(oc) => per_oband[oc.band] += e,
+            None => per_band[chunks[i].band] += e,
+        }
+        class3 += r["class3"].as_u64().unwrap();
+        class3_permuted += r["class3_permuted"].as_u64().unwrap();
+        invalid_skipped += r["invalid_skipped"].as_u64().unwrap();
         rejected += r["rejected"].as_u64().unwrap();
         if rej_sample.is_null() && !r["rej_sample"].is_null() {
             rej_sample = r["rej_sample"].clone();
@@ -1481,11 +1673,24 @@ fn main() {
             d
         })
         .collect();
+    let oband_desc: Vec<Value> = obands
+        .iter()
+        .zip(&per_oband)
+        .map(|(b, n)| {
+            let mut d = b.describe();
+            d["worlds"] = json!(n);
+            d
+        })
+        .collect();
     let coverage = json!({
         "evaluations": evals,
-        "exhaustive": true,
-        "bound": format!("every world of the grammar with 1..={} type definitions (bands below), each analysed 2x (all-may-alias closure and the generators' default closure)", bands.iter().map(|b| b.n).max().unwrap()),
+        "exhaustive": !order_only,
+        "bound": format!("every world of the grammar with 1..={} type definitions (bands below) plus every world of the order bands ({} interfaces with one look-alike definition each, all import/export assignments and statement orders), each analysed 2x (all-may-alias closure and the generators' default closure)", bands.iter().map(|b| b.n).max().unwrap(), obands.iter().map(|b| b.k.to_string()).collect::<Vec<_>>().join(" and ")),
         "bands": band_desc,
+        "order_bands": oband_desc,
+        "worlds_with_class_of_3_or_more_definitions": class3,
+        "of_those_visited_against_declaration_order": class3_permuted,
+        "generated_but_invalid_wit_not_counted": {"count": invalid_skipped, "reason": "wit-parser: interface transitively depends on an interface in incompatible ways (use chain reached through both an import and an export)"},
         "max_types_in_a_resolve": max_types,
         "max_live_types": max_live,
         "worlds_with_genuine_structural_merge": genuine,
@@ -1493,7 +1698,7 @@ fn main() {
         "worlds_with_error_use": {"result_literal": el, "result_named_alias": en, "result_through_alias_or_use": ea},
         "distinct_outcomes": outcomes.len(),
         "distinct_nontrivial": outcomes_nt.len(),
-        "rule": "cases = all worlds of the bands' grammar (every tuple of definitions x every layout x every set of uses), enumerated completely, each rendered to WIT and parsed by wit-parser; counted as non-trivial: distinct coarse outcome signatures (multiset of oracle classes of size>=2 as kind x members, set of post-merge fact bit-vectors of named types, near-equal pair count capped at 3) among worlds whose oracle partition has a class with >=2 non-alias definitions (a genuine structural merge, not mere alias transparency)",
+        "rule": "cases = all worlds of the bands' grammar (every tuple of definitions x every layout x every set of uses) and of the order bands (every definition/function choice per interface x every import/export assignment x every statement order), enumerated completely, each rendered to WIT and parsed by wit-parser; counted as non-trivial: distinct coarse outcome signatures (multiset of oracle classes of size>=2 as kind x members, set of post-merge fact bit-vectors of named types, near-equal pair count capped at 3) among worlds whose oracle partition has a class with >=2 non-alias definitions (a genuine structural merge, not mere alias transparency)",
         "oracle": "canonical structural signature string per type (aliases/use transparent, field/case/flag names in order, resources by TypeId) => partition of the live types; content facts by reachability (list or string / tuple / resource or handle / borrow / own); usage facts by reachability from import params (borrowed), export params + all results (owned), error type of the (alias-chased) result of a function (error)",
         "compared": "(1) get_representative_type partition vs oracle partition on all live types; (2) every TypeInfo bit after analyze(); (3) after collect_equal_types: equal types carry identical bits = union over the class",
         "violation_keys": viol.keys().collect::<Vec<_>>(),
